@@ -15,6 +15,7 @@ import Model.Opt
 import Model.Core
 import Model.Wait
 import Model.Close
+import Model.Retry
 import Generated.Facts
 import Driver.Machines
 open Model
@@ -208,6 +209,14 @@ def processLine (st : St) (line : String) : St × Option String :=
       if al.contains obs then (st, none) else
         ({ st with mismatches := st.mismatches + 1 },
           some s!"MISMATCH {st.lines} {lhs} expected={al} observed={obs}")
+    else if tag == "er.follow" then
+      match args with
+      | [_, _, kind] =>
+        let st := { st with counts := bump (bump st.counts tag) (tag ++ ":" ++ kind ++ "=" ++ obs) }
+        if Retry.admits kind obs then (st, none) else
+          ({ st with mismatches := st.mismatches + 1 },
+            some s!"MISMATCH {st.lines} {lhs} expected={if kind == "ok" then "ok" else "any result but hang/panic"} observed={obs}")
+      | _ => ({ st with mismatches := st.mismatches + 1 }, some s!"MISMATCH {st.lines} {lhs} expected=<bad arity> observed={obs}")
     else if tag == "w.run" then
       match checkWait args obs with
       | some (ok, exp, br) =>
